@@ -355,7 +355,7 @@ func (cx *Ctx) checkErrPropagation(r *Report, rule, key string, fn *ssa.Function
 			p := &aps[i]
 			// the path took the non-nil edge of a test of this very error (a block that several edges enter, or a
 			// variable that merges several errors, is not enough)
-			if !fx.tookFailingEdge(&p.Path, e) {
+			if p.Ret == nil || !fx.tookFailingEdge(&p.Path, e) {
 				continue
 			}
 			_, isNonNil := fx.errNilness(p, fx.retVal(p, res.Len()-1))
@@ -428,6 +428,9 @@ func (cx *Ctx) successAfterFailure(nonNil []*ssa.BasicBlock, call *ssa.Call) str
 				continue
 			}
 			seen[b] = true
+			if b == call.Block() {
+				return fmt.Sprintf("after %s failed the function can come round to the same call again at %s (a retry: the failure does not end the request, a later attempt that succeeds makes it count for nothing)", shortCallee(calleeName(call)), cx.W.InstrPos(call))
+			}
 			for _, in := range b.Instrs {
 				c2, ok := in.(ssa.CallInstruction)
 				if !ok {
@@ -1417,6 +1420,43 @@ func (cx *Ctx) checkDeferredErrOverwrite(r *Report, rule, key string, fn *ssa.Fu
 		for _, in := range b.Instrs {
 			d, ok := in.(*ssa.Defer)
 			if !ok {
+				continue
+			}
+			// `defer s.observe(ctx, "call", &err)`: a deferred module function handed the address of the result
+			if g := calleeOf(d); g != nil && g.Blocks != nil {
+				args := d.Call.Args
+				for ai, a := range args {
+					if a != ssa.Value(cell) || ai >= len(g.Params) {
+						continue
+					}
+					prm := g.Params[ai]
+					for _, gb := range g.Blocks {
+						for _, gin := range gb.Instrs {
+							st, isSt := gin.(*ssa.Store)
+							if !isSt || st.Addr != ssa.Value(prm) {
+								continue
+							}
+							okStore := isFreshError(st.Val)
+							if !okStore {
+								oldP := []string{deref(fx.path(st.Addr)), strings.TrimPrefix(fx.path(st.Addr), "&"), "*" + fx.path(st.Addr)}
+								vp := fx.path(st.Val)
+								for _, at := range fx.AtomsAt(st) {
+									if at.Op != "NIL" {
+										continue
+									}
+									if at.Neg && vp != "" && at.A == vp {
+										okStore = true
+									}
+									if !at.Neg && (at.A == oldP[0] || at.A == oldP[1] || at.A == oldP[2]) {
+										okStore = true
+									}
+								}
+							}
+							r.Check(okStore, rule, key+":deferred-overwrite@"+w.InstrPos(st), w.InstrPos(st), "the deferred assignment to the error result cannot turn a failure into success",
+								"the deferred call of "+g.Name()+" is handed the address of the error result of "+fn.Name()+" and assigns it without having found it nil and without the value stored being certainly an error: the failure the body returned is replaced after the return, the caller sees success")
+						}
+					}
+				}
 				continue
 			}
 			mc, ok := d.Call.Value.(*ssa.MakeClosure)
